@@ -604,7 +604,8 @@ func (grp *Group) validateCPUResourceFit(allQuotas map[string]*groupQuotaAllocat
 					return fmt.Errorf("sub-group cpu limit of %d%% is too large to fit inside group %q with allowed CPU set %v",
 						cpuRequested, parent.Name, limits.CPUSetLimit)
 				}
-				break
+				// a group with only a CPU set does not bound the CPU quota of
+				// the groups above it: keep looking for a CPU quota further up
 			}
 		}
 		parent = parent.parentGroup
